@@ -195,5 +195,8 @@ def run(check, ctx):
     # the native sponge with the permutation uninterpreted: padding, rate, suffix, output for all message values
     from . import c_keccak
     c_keccak.keccak_tables(check, ctx, groups=("sponge", "init"))
-    check.undecided.append("digest values: compression functions, the Keccak permutation itself, Merkle-Damgard padding in C; "
+    # the Merkle-Damgard hashes with the compression function uninterpreted: padding, length field, serialisation, IVs
+    from . import c_md
+    c_md.md_tables(check, ctx)
+    check.undecided.append("digest values: compression functions, the compression functions and the Keccak permutation themselves; MD2/MD4/BLAKE2 padding in C; "
                            "KangarooTwelve tree bookkeeping values; Poly1305 beyond the boundary table")
